@@ -158,7 +158,10 @@ func ParseField(v reflect.Value, bytes []byte, params fieldParameters) error {
 	}
 	switch val := v; val.Kind() {
 	case reflect.Bool:
-		if parsedBool, parse_err := parseBool(bytes[talOff]); err != nil {
+		if talOff >= len(bytes) {
+			return fmt.Errorf("zero-length BOOLEAN")
+		}
+		if parsedBool, parse_err := parseBool(bytes[talOff]); parse_err != nil {
 			return parse_err
 		} else {
 			val.SetBool(parsedBool)
@@ -261,7 +264,7 @@ func ParseField(v reflect.Value, bytes []byte, params fieldParameters) error {
 					if params.openType {
 						return fmt.Errorf("OpenType is not implemented")
 					}
-					if *structParams[current].tagNumber == talNow.tagNumber {
+					if structParams[current].tagNumber != nil && *structParams[current].tagNumber == talNow.tagNumber {
 						if err = ParseField(val.Field(current), bytes[offset:next], structParams[current]); err != nil {
 							return err
 						}
@@ -291,7 +294,7 @@ func ParseField(v reflect.Value, bytes []byte, params fieldParameters) error {
 					if params.openType {
 						return fmt.Errorf("OpenType is not implemented")
 					}
-					if *structParams[current].tagNumber == talNow.tagNumber {
+					if structParams[current].tagNumber != nil && *structParams[current].tagNumber == talNow.tagNumber {
 						if parse_err1 := ParseField(val.Field(current), bytes[offset:next], structParams[current]); parse_err1 != nil {
 							return parse_err1
 						}
